@@ -212,6 +212,44 @@ static void generalHistory(vh::Rng& rng, int L) {
   }
 }
 
+// text layer: chains of references through terms into definition texts; only incremental term / text edits
+// afterwards (a batch path would heal a missed update), the from-scratch oracle after every step
+static void textChainHistory(vh::Rng& rng, int L) {
+  RSForm f;
+  emit("c07 reset", "ok");
+  std::vector<uint32_t> ids;
+  ids.push_back(f.Emplace(CstType::base));
+  const int n = rng.range(3, 6);
+  for (int i = 1; i < n; ++i) ids.push_back(f.Emplace(CstType::term, "X1"));
+  auto alias = [&](size_t i) { return f.GetRS(ids[i]).alias; };
+  auto ref = [&](size_t i) { return "@{" + alias(i) + (rng.chance(1, 2) ? "|nomn,sing}" : "|datv,plur}"); };
+  // a chain (sometimes a tree) of term references: term(i) mentions term(j) for some j < i
+  f.SetTermFor(ids[0], "alpha");
+  for (size_t i = 1; i < ids.size(); ++i) {
+    const auto j = static_cast<size_t>(rng.chance(2, 3) ? i - 1 : static_cast<size_t>(rng.range(0, static_cast<int>(i) - 1)));
+    if (rng.chance(4, 5)) f.SetTermFor(ids[i], "t" + std::to_string(i) + " " + ref(j));
+    else f.SetTermFor(ids[i], "word" + std::to_string(i));
+  }
+  // definition texts mention terms, mostly NOT the root of the chain
+  for (size_t i = 0; i < ids.size(); ++i)
+    if (rng.chance(2, 3)) f.SetDefinitionFor(ids[i], "see " + ref(static_cast<size_t>(rng.range(static_cast<int>(ids.size()) > 2 ? 1 : 0, static_cast<int>(ids.size()) - 1))) + " end");
+  emit("c07 scratchimpl textchain-built", noSpace(scratchOracle(f)));
+  for (int step = 0; step < L; ++step) {
+    const auto i = static_cast<size_t>(rng.range(0, static_cast<int>(ids.size()) - 1));
+    std::string what;
+    switch (rng.range(0, 4)) {
+    default:
+    case 0: case 1: f.SetTermFor(ids[i], "new" + std::to_string(step)); what = "setterm-plain"; break;
+    case 2: { const auto j = static_cast<size_t>(rng.range(0, static_cast<int>(ids.size()) - 1));
+              if (j != i) f.SetTermFor(ids[i], "r" + std::to_string(step) + " " + ref(j)); what = "setterm-ref"; break; }
+    case 3: f.SetTermFormFor(ids[i], "form" + std::to_string(step), lang::Morphology{ lang::Grammem::datv, lang::Grammem::plur }); what = "settermform"; break;
+    case 4: { const auto j = static_cast<size_t>(rng.range(0, static_cast<int>(ids.size()) - 1));
+              f.SetDefinitionFor(ids[i], "d" + std::to_string(step) + " " + ref(j)); what = "settext-ref"; break; }
+    }
+    emit("c07 scratchimpl textchain-" + what, noSpace(scratchOracle(f)));
+  }
+}
+
 int main() {
   vh::Rng rng(vh::seedFromEnv());
   ccl::verif::Seed(static_cast<uint32_t>(vh::seedFromEnv() * 2654435761U + 17U));
@@ -234,5 +272,6 @@ int main() {
   const int HF = deep ? 3000 : 300, HG = deep ? 1500 : 120;
   for (int h = 0; h < HF; ++h) fragmentHistory(rng, deep ? 30 : 20);
   for (int h = 0; h < HG; ++h) generalHistory(rng, deep ? 30 : 20);
+  for (int h = 0; h < HG; ++h) textChainHistory(rng, deep ? 16 : 10);
   return 0;
 }
